@@ -139,8 +139,9 @@ pub fn oracle_c10_dev(op: &str, outs: &[String]) -> String {
         }
         if let Some(s) = parse_snap(o) {
             rx1d = Some(s.rx1d as u64);
-        } else if o.contains("DownlinkReceived(") || o.contains("JoinSuccess") {
-            // this event's own windows were still scheduled with the old delay
+        } else if o.contains("DownlinkReceived(") || o.contains("JoinSuccess") || ev.contains("|") && ev.split('|').nth(1).map(|sc| sc.split_whitespace().any(|t| t.starts_with('R'))).unwrap_or(false) {
+            // a frame was (or may have been) accepted — even when the call then failed on a later
+            // radio error; this event's own windows were still scheduled with the old delay
             rx1d_next = Some(None);
         }
         if !o.starts_with("calls=tx(") {
@@ -181,6 +182,11 @@ pub fn oracle_c10_dev(op: &str, outs: &[String]) -> String {
         if class_c {
             if let Some(rx2) = singles.get(1) {
                 let rx2_rf = rx2.trim_start_matches("srx(").rsplit_once(',').map(|x| x.0).unwrap_or("");
+                // only the listening BEFORE the RX2 window is compared: a frame accepted in a window of
+                // this procedure may carry RXParamSetupReq, which applies to the listening after it
+                let rx2_pos = calls.iter().position(|c| c == rx2).unwrap_or(calls.len());
+                let rx1_accepted = o.contains("DownlinkReceived(");
+                let conts: Vec<&str> = if rx1_accepted { vec![] } else { calls[..rx2_pos].iter().filter(|c| c.starts_with("srx(") && c.ends_with(",c)")).cloned().collect() };
                 for c in &conts {
                     let rf = c.trim_start_matches("srx(").rsplit_once(',').map(|x| x.0).unwrap_or("");
                     // same frequency and data rate as RX2 when the uplink used the current data rate
@@ -539,7 +545,7 @@ pub fn oracle_c10_nb(op: &str, outs: &[String]) -> String {
         }
         if let Some(s) = parse_snap(o) {
             rx1d = Some(s.rx1d as i64);
-        } else if o.contains("DownlinkReceived(") || o.contains("JoinSuccess") {
+        } else if o.contains("DownlinkReceived(") || o.contains("JoinSuccess") || ev.starts_with("nradio rx") {
             rx1d = None;
         }
         if ev.starts_with("njoin") && o.contains("txreq(") {
@@ -593,8 +599,8 @@ pub fn oracle_c10_nb(op: &str, outs: &[String]) -> String {
 /// step-by-step comparison with the Lean device model is what ties them to the property's model
 pub fn eval_dev_any(op: &str) -> Option<String> {
     match op.split_whitespace().nth(1) {
-        Some("adev") => Some(eval(op, oracle_c04_dev)),
-        Some("nbdev") => Some(eval_nb(op, oracle_c04_dev)),
+        Some("adev") => Some(eval(op, oracle_dev_all)),
+        Some("nbdev") => Some(eval_nb(op, oracle_nb_all)),
         _ => None,
     }
 }
@@ -616,4 +622,156 @@ pub fn add_dev_classes(suite: &str, rng: &mut Rng, sink: &mut Sink, thorough: bo
             sink.case(&op, &eval(&op), "device-join", true);
         }
     }
+}
+
+
+/// C05 (and the observable half of C07) at device level, async front-end: every frame the radio
+/// reported is placed in the window it was heard in (the most recent `srx` of the call trace; script
+/// items are consumed one per radio call tx/srx/rxc/rxs/lp) and judged by the reference rule —
+/// acted upon iff its MIC verifies under a counter N that is fresh (last < N <= last + 16384; first
+/// frame: N < 2^16) and it fits that window's size limit.  Exactly the accepted frames with a
+/// port > 0 are delivered, in order; a frame accepted in a Class A window is the response.
+pub fn oracle_c05_dev(op: &str, outs: &[String]) -> String {
+    let evs: Vec<&str> = op.split(';').skip(1).map(|s| s.trim()).collect();
+    let mut last: Option<u32> = None;
+    let mut joined = false;
+    for (ev, o) in evs.iter().zip(outs.iter()) {
+        if o == "PANIC" || o == "HANG" || o.contains("STUCK") {
+            return format!("FAIL:{}", o.split_whitespace().next().unwrap_or("?"));
+        }
+        let (cmd, script) = match ev.split_once('|') {
+            Some((a, b)) => (a.trim(), b.trim()),
+            None => (*ev, ""),
+        };
+        let w: Vec<&str> = cmd.split_whitespace().collect();
+        match w.first().copied() {
+            Some("abp") => {
+                joined = true;
+                last = None;
+                continue;
+            }
+            Some("sess") => {
+                joined = true;
+                last = w.get(3).and_then(|x| x.parse().ok());
+                continue;
+            }
+            Some("asend") | Some("ajoin") => {}
+            _ => continue,
+        }
+        let is_join = w[0] == "ajoin";
+        if is_join {
+            joined = false;
+        }
+        if !o.starts_with("calls=") {
+            continue;
+        }
+        let body = &o["calls=".len()..];
+        let (calls_s, rest) = match body.split_once(" => ") {
+            Some(x) => x,
+            None => continue,
+        };
+        let items: Vec<&str> = script.split_whitespace().collect();
+        let mut it = items.iter();
+        let mut mp: Option<u32> = None; // size limit of the window being listened in
+        let mut expect_dls: Vec<String> = vec![];
+        let mut class_a_accept: Option<u32> = None;
+        for c in calls_s.split(';') {
+            let radio_call = c.starts_with("tx(") || c.starts_with("srx(") || c == "rxc" || c == "rxs" || c == "lp";
+            if !radio_call {
+                continue;
+            }
+            let item = it.next().copied().unwrap_or("O");
+            if c.starts_with("srx(") {
+                let f: Vec<&str> = c.trim_start_matches("srx(").trim_end_matches(')').split(',').collect();
+                mp = f.get(3).and_then(|x| x.parse().ok());
+                continue;
+            }
+            if !(c == "rxc" || c == "rxs") || !item.starts_with('R') {
+                continue;
+            }
+            // R<snr>/<hex>/<view fields…>
+            let f: Vec<&str> = item[1..].split('/').collect();
+            if f.len() < 3 {
+                continue;
+            }
+            if f[2] == "j" {
+                if is_join && c == "rxs" && f.get(3) == Some(&"1") {
+                    joined = true;
+                    last = None;
+                }
+                continue;
+            }
+            if f[2] != "d" || f.len() < 10 || !joined || is_join {
+                continue;
+            }
+            let len: u32 = f[3].parse().unwrap_or(0);
+            let f16: u32 = f[5].parse().unwrap_or(0);
+            let mic: Option<u32> = f[6].parse().ok();
+            let fresh = match (mic, last) {
+                (Some(n), None) => n == f16,
+                (Some(n), Some(l)) => n % 65536 == f16 && (l as u64) < n as u64 && n as u64 <= l as u64 + 16384,
+                (None, _) => false,
+            };
+            let fits = match mp {
+                Some(m) => len <= m + 5,
+                None => continue,
+            };
+            if fresh && fits {
+                let n = mic.unwrap();
+                last = Some(n);
+                if let Ok(p) = f[8].parse::<u8>() {
+                    if p > 0 {
+                        expect_dls.push(format!("{}:{}", p, if f[9] == "-" { "" } else { f[9] }));
+                    }
+                }
+                if c == "rxs" {
+                    class_a_accept = Some(n);
+                }
+            }
+        }
+        if is_join {
+            continue;
+        }
+        let dls = rest.split(" dls=").nth(1).unwrap_or("-").trim();
+        let got: Vec<String> = if dls == "-" { vec![] } else { dls.split(',').map(|x| x.to_string()).collect() };
+        if got != expect_dls {
+            return format!("FAIL:delivered-[{}]-expected-[{}]", got.join(","), expect_dls.join(","));
+        }
+        if let Some(n) = class_a_accept {
+            // the last Class A acceptance ends the procedure and is what send() reports
+            // (SessionExpired replaces it at the end of the counter space)
+            if !(rest.contains(&format!("DownlinkReceived({})", n)) || rest.contains("SessionExpired") || rest.contains("Err(")) {
+                return format!("FAIL:accepted-frame-{}-not-reported: {}", n, rest.split_whitespace().next().unwrap_or(""));
+            }
+        } else if rest.contains("DownlinkReceived(") && expect_dls.is_empty() {
+            // a Class C acceptance may also be reported; without any acceptable frame nothing may be
+            let any_c = false;
+            if !any_c && !calls_s.contains("rxc") {
+                return "FAIL:downlink-reported-but-no-frame-was-acceptable".into();
+            }
+        }
+    }
+    "ok".into()
+}
+
+/// every device-level oracle that applies to the async front-end, in one
+pub fn oracle_dev_all(op: &str, outs: &[String]) -> String {
+    for f in [oracle_c04_dev as fn(&str, &[String]) -> String, oracle_c06_dev, oracle_c10_dev, oracle_c05_dev] {
+        let r = f(op, outs);
+        if r != "ok" {
+            return r;
+        }
+    }
+    "ok".into()
+}
+
+/// … and to the non-blocking front-end
+pub fn oracle_nb_all(op: &str, outs: &[String]) -> String {
+    for f in [oracle_c04_dev as fn(&str, &[String]) -> String, oracle_c06_dev, oracle_c10_nb] {
+        let r = f(op, outs);
+        if r != "ok" {
+            return r;
+        }
+    }
+    "ok".into()
 }
